@@ -22,6 +22,13 @@ pub fn handle(req: &Value) -> Value {
             let (raw, cleaned) = libmathcat::verif::verif_last_braille();
             json!({"r":"ok","v":[raw, cleaned]})
         }
+        "join_log" => {
+            let entries: Vec<Value> = libmathcat::verif::verif_take_join_log()
+                .into_iter()
+                .map(|(i, o)| json!([i, o]))
+                .collect();
+            json!({"r":"ok","v":entries})
+        }
         "numpat" => {
             let g = |k: &str| req.get(k).and_then(|v| v.as_str()).unwrap_or("").to_string();
             let r = libmathcat::verif::verif_number_patterns(&g("text"), &g("block"), &g("decimal"));
